@@ -109,6 +109,9 @@ pub fn run(n: usize, rng: &mut Rng, rep: &mut Report) {
             }
         };
         let full = wrap_ctx(rng, &doc, depth);
+        // a first line such as "- -     -" is a thematic break in CommonMark (block structure wins over the list reading)
+        let is_hr = |l: &str| { let t: String = l.chars().filter(|c| *c != ' ' && *c != '\t').collect(); t.len() >= 3 && (t.chars().all(|c| c == '-') || t.chars().all(|c| c == '*') || t.chars().all(|c| c == '_')) };
+        if full.split('\n').any(|l| is_hr(l.trim_start_matches(|c: char| c == '>' || c == ' '))) && depth > 0 { rep.stats.count("skipped_hr_lookalike"); continue; }
         // "line endings normalised": the same document with CRLF or bare CR line endings must give the same content
         let full = match rng.below(4) { 0 => full.replace('\n', "\r\n"), 1 => full.replace('\n', "\r"), _ => full };
         let input = format!("kind={} depth={} src={}", what, depth, hexs(&full));
